@@ -282,3 +282,24 @@ case("c08-replay-alters-payload", "C08", "mutant", [(QS + "dlq.py", """         
         conn.commit()
 
         logger.info("Replayed""")], "C08.R2")
+
+# ------------------------------------------------------------------ C06
+case("c06-direct-write-bypasses-validation", "C06", "mutant", [(H + "cancel_stage.py", "            self.set_stage_status(stage, WorkflowStatus.CANCELED)", "            stage.status = WorkflowStatus.CANCELED"),
+                                                                 (H + "cancel_stage.py", "            if stage.status.is_complete:", "            if stage.status.is_halt:")], "C06.R2")
+case("c06-suspend-guard-removed", "C06", "mutant", [(H + "run_task/result.py", "    if task_model.status != WorkflowStatus.RUNNING or stage.status != WorkflowStatus.RUNNING:", "    if False:")], "C06.R2")
+case("c06-completed-gets-successor", "C06", "mutant", [("src/stabilize/models/status.py", "    WorkflowStatus.SUCCEEDED: frozenset(),", "    WorkflowStatus.SUCCEEDED: frozenset({WorkflowStatus.RUNNING}),")], "C06.R1")
+case("c06-setter-assigns-before-validate", "C06", "mutant", [(H + "base.py", """        validate_transition(
+            task.status,
+            new_status,
+            entity_type="task",
+            entity_id=task.id,
+        )
+        task.status = new_status""", """        task.status = new_status""")], "C06.R")
+case("c06-new-status-writer-sql", "C06", "mutant", [("src/stabilize/persistence/sqlite/operations.py", """            is_canceled = 1,
+            canceled_by = :canceled_by,""", """            is_canceled = 1,
+            status = 'CANCELED',
+            canceled_by = :canceled_by,""")], "C06.R3")
+case("c06-rearm-from-other-handler", "C06", "mutant", [(H + "signal_stage.py", """                # WCP-24: Buffer the signal for later consumption""", """                from stabilize.handlers.jump_to_stage.reset import reset_stage_for_retry
+                reset_stage_for_retry(stage)
+                # WCP-24: Buffer the signal for later consumption""")], "C06.R2")
+case("c06-refactor-direct-write-under-guard", "C06", "refactor", [(H + "signal_stage.py", "                self.set_stage_status(stage, WorkflowStatus.RUNNING)", "                stage.status = WorkflowStatus.RUNNING")])
